@@ -51,7 +51,7 @@ def run(tier, seed):
     po3 = proof_obligations("WowVerif.Thm.C17c")      # flat_sound / flat_walk: soundness of the static matcher for straight-line messages
     add_proof_failures(rep, po3)
     po = dict(po, theorems=dict(po["theorems"], **po3["theorems"]), obligations=po["obligations"] + po3["obligations"], discharged=po["discharged"] + po3["discharged"])
-    po4 = proof_obligations("WowVerif.Thm.C17d")      # walkMs_sound / walk_ends / walk_ends_dir / walk_ends_login: arrays, conditionals, structs, optional tails
+    po4 = proof_obligations("WowVerif.Thm.C17d")      # walkMs_sound / walk_full / walk_full_dir / walk_full_login: arrays, conditionals, structs, optional tails — fields, branches, end
     add_proof_failures(rep, po4)
     po = dict(po, theorems=dict(po["theorems"], **po4["theorems"]), obligations=po["obligations"] + po4["obligations"], discharged=po["discharged"] + po4["discharged"])
     rng = SplitMix64(seed)
@@ -60,7 +60,7 @@ def run(tier, seed):
         cov = walk(rep, tier, rng, label, base, po) if cov is None else dict(cov, regenerated=walk(rep, tier, rng, label, base, po))
     rep.coverage = cov
     rep.assumptions = ["messages with built-in types outside the generic semantics (update mask, aura mask, splines, addon arrays, compressed payloads) are not walked (counted as unsupported)",
-                       "the structural theorem (Thm/C17d.lean) proves the END POSITION for all values of the definitions its matcher accepts (644 of 650 (definition, direction) pairs on the unchanged tree); the reported field widths of non-straight-line messages, the five Vanilla messages with built-in types are decided on the enumerated encodings only"]
+                       "the structural theorem (Thm/C17d.lean walk_full) proves the whole statement for all values of the definitions its matcher accepts (644 of 650 (definition, direction) pairs on the unchanged tree); the five Vanilla messages with built-in types and one login case without a dissector arm are decided on the enumerated encodings only"]
     return rep.finish()
 
 
@@ -244,7 +244,7 @@ def walk(rep, tier, rng, label, base, po):
         "theorems": po["theorems"], "declaration_obligations": n_decl,
         "evaluations": len(reqs), "distinct_nontrivial": len(set(reqs)), "outcome_classes": dict(classes), "cases_translated": {w: len(have[w]) for w in have},
         "cases_unsupported": dict(unsupported_cases), "containers_walked_ok": covered, "straight_line_definitions": n_flat, "straight_line_definitions_proved_for_all_values": n_flat_ok,
-        "definitions_whose_walk_is_proved_to_end_at_the_end_for_all_values (walk_ends)": n_struct_ok, "of_which_not_straight_line": n_struct_new, "pairs_compared_by_the_structural_matcher": len(pairs),
+        "pairs_proved_for_all_values (walk_full: prescribed fields, branches, end position)": n_struct_ok, "of_which_not_straight_line": n_struct_new, "pairs_compared_by_the_structural_matcher": len(pairs),
         "structural_matcher_outside_fragment (built-in type / self.size field)": n_struct_outside,
         "structural_matcher_refused_sample": [f"{n} {k} s2c={s} {o}" for n, k, s, o in struct_bad[:12]], "containers_without_case": len(missing), "containers_without_case_sample": missing[:8],
         "rule": "per Vanilla world message and login message/version with a dissector case: branch-directed samples (every arm), enumerator sweep, random samples with array lengths 0/1/2/5, both directions for MSG; wowm test vectors; walk must end at the end of the body with the definition's (width, encoding) list",
